@@ -115,10 +115,13 @@ Definition items (o : base_opts) (d : doc) (x : def) : list item :=
 
 Lemma body_ok_parts b :
   body_ok b = true ->
-  kw_free (b_type b) = true /\ kw_free (b_vars b) = true /\ kw_of (b_runtime b) = None.
+  kw_free (b_type b) = true /\ (forall t, kw_free (vars_body t b) = true) /\ kw_of (b_runtime b) = None.
 Proof.
-  unfold body_ok. intros H. apply andb_true_iff in H as [H H3]. apply andb_true_iff in H as [H1 H2].
-  repeat split; try assumption. apply is_kw_W. destruct (is_kw (W (b_runtime b))); [discriminate|reflexivity].
+  unfold body_ok. intros H. apply andb_true_iff in H as [H H4]. apply andb_true_iff in H as [H H3].
+  apply andb_true_iff in H as [H1 H2].
+  repeat split; try assumption.
+  - intros t. unfold vars_body. destruct (allow_undefined_as_optional_input t); assumption.
+  - apply is_kw_W. destruct (is_kw (W (b_runtime b))); [discriminate|reflexivity].
 Qed.
 
 (** ** JS visitor *)
@@ -194,7 +197,7 @@ Lemma scan_dts_operation t o ex k name p sel b rest :
   scan (dts_operation t o ex k name p sel b ++ rest)
   = IDecl ex (operation_var o k name) (name_pos name p) :: scan rest.
 Proof.
-  intros Hb Hn. destruct (body_ok_parts b Hb) as [Ht [Hv Hr]].
+  intros Hb Hn. destruct (body_ok_parts b Hb) as [Ht [Hv0 Hr]]. pose proof (Hv0 t) as Hv.
   unfold def_names_ok_with in Hn. apply andb_true_iff in Hn as [Hn1 Hn2].
   apply negb_true_iff in Hn1, Hn2. apply is_kw_W in Hn1, Hn2.
   unfold dts_operation, decl_prefix. cbv zeta.
@@ -624,7 +627,8 @@ Qed.
 Definition collide_doc : doc :=
   Doc 0 [OpDef KQuery (Some (s "Foo", P 0 6 0 false)) (P 0 0 0 false) (P 0 10 0 false);
          FragDef (s "FooQuery") (P 1 0 0 false)].
-Definition collide_B : list defbody := [Body [W (s "{}")] [W (s "{}")] (s "{}"); Body [W (s "{}")] [] (s "{}")].
+Definition collide_B : list defbody :=
+  [Body [W (s "{}")] [W (s "{}")] [W (s "{}")] (s "{}"); Body [W (s "{}")] [] [] (s "{}")].
 
 Lemma runtime_exports_refuted_witness :
   doc_valid_names collide_doc = true
@@ -637,7 +641,7 @@ Lemma runtime_exports_refuted_witness :
 Proof. repeat split; vm_compute; reflexivity. Qed.
 
 (** a second shape: operations [foo] and [Foo] (distinct, valid operation names) are capitalised alike *)
-Definition collide_cfg2 : cfg_text := Some (GenT None None (Some (ExportT (Some false) None None))).
+Definition collide_cfg2 : cfg_text := Some (GenT None None None (Some (ExportT (Some false) None None))).
 Definition collide_doc2 : doc :=
   Doc 0 [OpDef KQuery (Some (s "foo", P 0 6 0 false)) (P 0 0 0 false) (P 0 10 0 false);
          OpDef KQuery (Some (s "Foo", P 1 6 0 false)) (P 1 0 0 false) (P 1 10 0 false)].
@@ -668,9 +672,9 @@ Qed.
     written is [TypedDocumentNode<export { ,  as default };…], which is no export statement) *)
 
 Definition phantom_t : type_opts :=
-  TypeOpts base_default false (s "Schema") (s "") (s "x") k_as_default k_export_brace (s "").
+  TypeOpts base_default false (s "Schema") (s "") (s "x") k_as_default k_export_brace (s "") true.
 Definition phantom_doc : doc := Doc 0 [OpDef KQuery None (P 0 0 0 false) (P 0 6 0 false)].
-Definition phantom_B : list defbody := [Body [] [] (s "{}")].
+Definition phantom_B : list defbody := [Body [] [] [] (s "{}")].
 
 Lemma names_guard_needed :
   bodies_ok phantom_B = true /\ names_ok phantom_t phantom_doc = false /\
@@ -680,7 +684,7 @@ Proof. split; [reflexivity|split; [reflexivity|]]. vm_compute. discriminate. Qed
 (** * Non-vacuity: the guards hold on non-trivial inputs and the exports are not empty *)
 
 Definition ex_cfg : cfg_text :=
-  Some (GenT (Some StandaloneTS4_0)
+  Some (GenT (Some StandaloneTS4_0) (Some (TypeT (Some false)))
              (Some (NameT None (Some (s "Vars")) None (Some false) (Some (s "Doc")) None None (Some (s "Frag"))))
              (Some (ExportT (Some false) (Some true) None))).
 Definition ex_doc : doc :=
@@ -688,9 +692,9 @@ Definition ex_doc : doc :=
          FragDef (s "F") (P 2 0 3 false);
          FragDef (s "G") (P 0 0 5 false)].
 Definition ex_B : list defbody :=
-  [Body [W (s "{"); Indent; WF (s "a") (P 0 12 3 false) (Some (s "a")); W (s ": number"); Dedent; W (s "}")] [W (s "{}")] (s "{""kind"":""Document""}");
-   Body [W (s "{}")] [] (s "{}");
-   Body [W (s "{}")] [] (s "{}")].
+  [Body [W (s "{"); Indent; WF (s "a") (P 0 12 3 false) (Some (s "a")); W (s ": number"); Dedent; W (s "}")] [W (s "{}")] [W (s "{ }")] (s "{""kind"":""Document""}");
+   Body [W (s "{}")] [] [] (s "{}");
+   Body [W (s "{}")] [] [] (s "{}")].
 
 Example ex_guards :
   bodies_ok ex_B = true /\ names_ok (type_from_config (parse_config ex_cfg)) ex_doc = true
